@@ -365,6 +365,84 @@ namespace plan
     }
   }
 
+  // P6 (C17): right after reading, an object / enum variable no constraint mentions ranges over exactly the
+  // instances (values) that existed when it was declared
+  inline void Checker::check_domains_after_read(int units_read)
+  {
+    ratio::env *top = static_cast<ratio::core *>(&s);
+    Locals none;
+    std::map<ratio::item *, int> inst_of;
+    for (size_t i = 0; i < m.insts.size(); ++i)
+      if (m.insts[i].unit < units_read)
+        if (ratio::item *it = resolve(top, none, {m.insts[i].name}))
+          inst_of[it] = static_cast<int>(i);
+    for (auto &v : m.ovars)
+    {
+      if (v.unit >= units_read || m.mentioned.count(v.name))
+        continue;
+      std::set<int> expect, got;
+      for (size_t i = 0; i < m.insts.size(); ++i)
+        if (m.is_subclass(m.insts[i].cls, v.cls) && m.insts[i].order < v.order)
+          expect.insert(static_cast<int>(i));
+      ratio::item *it = resolve(top, none, {v.name});
+      if (!it)
+        continue;
+      bool unknown = false;
+      if (auto *vi = dynamic_cast<ratio::var_item *>(it))
+      {
+        for (auto *x : s.enum_value(ratio::var_expr(vi)))
+        {
+          auto f = inst_of.find(static_cast<ratio::item *>(x));
+          if (f == inst_of.end())
+            unknown = true;
+          else
+            got.insert(f->second);
+        }
+      }
+      else
+      {
+        auto f = inst_of.find(it);
+        if (f == inst_of.end())
+          unknown = true;
+        else
+          got.insert(f->second);
+      }
+      cnt.inc("p6.domains_checked_exactly");
+      if (unknown || got != expect)
+      {
+        std::string a, b;
+        for (int i : expect)
+          a += " " + m.insts[i].name;
+        for (int i : got)
+          b += " " + m.insts[i].name;
+        viol("P6", "P6.domain_not_exact", "object variable " + v.name + " (" + m.classes[v.cls].name + ") ranges over {" + b + (unknown ? " <not an instance>" : "") + " } but the instances existing at its declaration are {" + a + " }");
+      }
+    }
+    for (auto &v : m.evars)
+    {
+      if (m.mentioned.count(v.name))
+        continue;
+      std::set<std::string> expect(m.enums[v.en].vals.begin(), m.enums[v.en].vals.end()), got;
+      if (m.enums[v.en].includes >= 0)
+        for (auto &x : m.enums[m.enums[v.en].includes].vals)
+          expect.insert(x);
+      ratio::item *it = resolve(top, none, {v.name});
+      if (!it)
+        continue;
+      if (auto *vi = dynamic_cast<ratio::var_item *>(it))
+      {
+        for (auto *x : s.enum_value(ratio::var_expr(vi)))
+          if (auto *si = dynamic_cast<ratio::string_item *>(static_cast<ratio::item *>(x)))
+            got.insert(si->get_value());
+      }
+      else if (auto *si = dynamic_cast<ratio::string_item *>(it))
+        got.insert(si->get_value());
+      cnt.inc("p6.enum_domains_checked_exactly");
+      if (got != expect)
+        viol("P6", "P6.enum_domain_not_exact", "enum variable " + v.name + " of " + m.enums[v.en].name + " ranges over " + std::to_string(got.size()) + " values but the enum declares/includes " + std::to_string(expect.size()));
+    }
+  }
+
   // P3 (C04) and P4 (C05): state variables and reusable resources, from the atoms and from the extracted timelines
   inline void Checker::check_timelines()
   {
